@@ -10,15 +10,42 @@ Lemma migrate_account_inv : forall s from to s',
   migrate_account s from to = Ok s' ->
   has_record s from = false /\ has_record s to = false /\ check_from s from = Ok tt /\
   staking_validate from to s = Ok tt /\ gov_validate from to s = Ok tt /\
-  exists s1, staking_execute from to (bank_execute from to s) = Ok s1 /\ s' = set_record from to s1.
+  exists s1, staking_execute from to (bank_move from to s) = Ok s1 /\ s' = set_record from to s1.
 Proof.
   intros s from to s'. unfold migrate_account.
   destruct (has_record s from); [discriminate|]. destruct (has_record s to); [discriminate|].
   intros H. apply bind_ok in H. destruct H as [[] [H1 H]].
   apply bind_ok in H. destruct H as [[] [H2 H]].
   apply bind_ok in H. destruct H as [[] [H3 H]].
+  apply bind_ok in H. destruct H as [s0 [H0 H]]. unfold bank_execute in H0.
+  destruct (bank_blocked from s); [discriminate|]. inversion H0. subst s0.
   apply bind_ok in H. destruct H as [s1 [H4 H]]. inversion H. subst.
   repeat split; try assumption. exists s1. split; [exact H4 | reflexivity].
+Qed.
+
+(* nothing of a held denomination may be locked (vesting): SendCoins of the whole balance would fail *)
+Lemma migrate_account_unlocked : forall s from to s',
+  migrate_account s from to = Ok s' -> bank_blocked from s = false.
+Proof.
+  intros s from to s'. unfold migrate_account.
+  destruct (has_record s from); [discriminate|]. destruct (has_record s to); [discriminate|].
+  intros H. apply bind_ok in H. destruct H as [[] [H1 H]].
+  apply bind_ok in H. destruct H as [[] [H2 H]].
+  apply bind_ok in H. destruct H as [[] [H3 H]].
+  apply bind_ok in H. destruct H as [s0 [H0 H]]. unfold bank_execute in H0.
+  destruct (bank_blocked from s); [discriminate | reflexivity].
+Qed.
+
+Lemma bank_blocked_false : forall s from, bank_blocked from s = false ->
+  forall d x, sget k2_eqb (from, d) (bal s) = Some x -> locked_of s from d <= 0.
+Proof.
+  intros s from H d x G. unfold bank_blocked in H.
+  assert (I : In ((from, d), x) (filter (fun kv : Z * Z * Z => fst (fst kv) =? from) (bal s))).
+  { apply filter_In. split; [apply (sget_in k2_eqb k2_eqb_ok); exact G | cbn; apply Z.eqb_refl]. }
+  destruct (Z_le_gt_dec (locked_of s from d) 0) as [L|L]; [exact L|]. exfalso.
+  assert (existsb (fun kv : Z * Z * Z => snd kv - locked_of s from (snd (fst kv)) <? snd kv)
+            (filter (fun kv : Z * Z * Z => fst (fst kv) =? from) (bal s)) = true); [|congruence].
+  apply existsb_exists. exists ((from, d), x). split; [exact I|]. cbn. apply Z.ltb_lt. lia.
 Qed.
 
 Section WithSig.
